@@ -15,21 +15,27 @@ EXTENDS QuilGrammar, Json, IOUtils, TLC
 CONSTANT Strict
 
 Rec == ndJsonDeserialize(IOEnv.TRACE)
-VARIABLE l
-TInit == l = 1
+VARIABLES l,      \* next record
+          stage,  \* "reset" | "input" | "verdict": position inside the current history
+          last    \* the outcomes logged by the history's input event
+tvars == <<l, stage, last>>
+NoRes == [program |-> "", instruction |-> "", expression |-> "", memref |-> "", frame |-> ""]
+TInit == l = 1 /\ stage = "verdict" /\ last = NoRes
 IsEvent(e) == l <= Len(Rec) /\ Rec[l].ev = e /\ l' = l + 1
 
-TReset == IsEvent("reset")
+TReset == IsEvent("reset") /\ stage' = "reset" /\ last' = NoRes
 SameOutcomes(o, res) == \A e \in DOMAIN o : o[e] = res[e]
-TInput == /\ IsEvent("input")
+TInput == /\ IsEvent("input") /\ stage = "reset"
           /\ \A k \in DOMAIN Rec[l].toks : ClassOK(Rec[l].toks[k])
           /\ TotalOn(Rec[l].toks)
           /\ ConsistentOn(Rec[l].toks)
           /\ (Strict /\ Sure(Rec[l].toks) => SameOutcomes(Outcomes(Rec[l].toks), Rec[l].res))
-TVerdict == /\ IsEvent("verdict")
-            /\ \A e \in {"program", "instruction", "expression", "memref", "frame"} : Rec[l].res[e] \in {"ok", "err"}
+          /\ stage' = "input" /\ last' = [e \in DOMAIN NoRes |-> Rec[l].res[e]]
+TVerdict == /\ IsEvent("verdict") /\ stage = "input"
+            /\ \A e \in DOMAIN NoRes : Rec[l].res[e] \in {"ok", "err"} /\ Rec[l].res[e] = last[e]
+            /\ stage' = "verdict" /\ UNCHANGED last
 TNext == TReset \/ TInput \/ TVerdict
-TSpec == TInit /\ [][TNext]_l
+TSpec == TInit /\ [][TNext]_tvars
 
 Accepted == LET n == TLCGet("stats").diameter - 1 IN
             IF n = Len(Rec) THEN TRUE ELSE Print(<<"REJECTED_AT", n + 1, Rec[n + 1].ev>>, FALSE)
